@@ -665,6 +665,150 @@ pub fn c04(ctx: &mut Ctx) {
 pub fn c04(_ctx: &mut Ctx) {}
 
 // ---------------------------------------------------------------------------------------------
+// C08: `Clone::clone_from` - the destination takes over the source's element type and everything that goes with it
+
+#[cfg(feature = "alloc")]
+fn c08_clone_from_pair<A: Elem, B: Elem>(ctx: &mut Ctx, max_len: usize) {
+    let name = format!("{}<-{}", A::NAME, B::NAME);
+    let mut sp = Sp::new(ctx, "clone-from", name.clone());
+    sp.ctx.ordinal = 0;
+    for la in 0..=max_len {
+        for spare in [false, true] {
+            if !sp.take() {
+                continue;
+            }
+            let mut p = Pair::<A, B>::new(la);
+            if spare {
+                p.va.reserve(5);
+            }
+            let opsig = "clone_from";
+            let desc = format!("{name}|len={la}{}|clone_from(3 elements)", if spare { "+spare" } else { "" });
+            let mb = p.mb.clone();
+            let want_log = |n: usize| -> Vec<(u32, Id)> {
+                let mut w: Vec<(u32, Id)> = Vec::new();
+                for _ in 0..n {
+                    w.extend(mb.iter().map(|i| (B::TAG, *i)));
+                }
+                w.sort();
+                w
+            };
+            let sorted_log = || {
+                let mut l = reg::take_clone_log();
+                l.sort();
+                l
+            };
+            let _ = reg::take_clone_log();
+            let Pair { va, vb, .. } = &mut p;
+            let r = guarded(|| va.clone_from(&*vb));
+            if let Err(m) = r {
+                sp.viol("model", opsig, format!("clone_from panicked: {m}"), &desc);
+                std::mem::forget(p);
+                sp.done(&desc, true, opsig);
+                continue;
+            }
+            // 1. the destination is a clone of the source
+            let check_is_clone = |sp: &mut Sp, v: &AnyVec<dyn Cloneable>, what: &str, want: &[Id]| {
+                if v.element_typeid() != TypeId::of::<B>() || v.element_layout() != Layout::new::<B>() {
+                    sp.viol("meta", opsig, format!("{what}: element_typeid/element_layout are not those of the source's element type"), &desc);
+                    return false;
+                }
+                match snap_ids::<B, _, _>(v) {
+                    Ok(ids) if ids == want => true,
+                    Ok(ids) => {
+                        sp.viol("model", opsig, format!("{what} is {:?}, the source is {:?}", ids, want), &desc);
+                        false
+                    }
+                    Err(e) => {
+                        sp.viol("garbage", opsig, format!("{what} invalid: {e}"), &desc);
+                        false
+                    }
+                }
+            };
+            let ok = check_is_clone(&mut sp, &p.va, "the destination of clone_from", &mb);
+            let log = sorted_log();
+            if log != want_log(1) {
+                sp.viol("clone-count", opsig, format!("clone_from made the Clone::clone calls {:?}, expected {:?}", log, want_log(1)), &desc);
+            }
+            if !ok {
+                // do not touch a vector of unknown content again
+                std::mem::forget(p);
+                let _ = reg::take_violations();
+                sp.done(&desc, true, opsig);
+                continue;
+            }
+            // 2. ... and so is everything derived from it: second-generation clone, lazy clones, an empty clone that accepts B values
+            let second = guarded(|| p.va.clone());
+            match second {
+                Ok(c) => {
+                    let ok2 = check_is_clone(&mut sp, &c, "a clone of the destination", &mb);
+                    let log = sorted_log();
+                    if log != want_log(1) {
+                        sp.viol("clone-count", opsig, format!("cloning the destination made the Clone::clone calls {:?}, expected {:?}", log, want_log(1)), &desc);
+                    }
+                    if ok2 { drop(c) } else { std::mem::forget(c) }
+                }
+                Err(m) => sp.viol("model", opsig, format!("cloning the destination panicked: {m}"), &desc),
+            }
+            let third = guarded(|| {
+                let mut e = p.va.clone_empty();
+                e.push(p.va.at(0).lazy_clone());
+                e.insert(0, p.va.at(2).lazy_clone());
+                e
+            });
+            match third {
+                Ok(e) => {
+                    let ok3 = check_is_clone(&mut sp, &e, "an empty clone of the destination after two lazy-clone insertions", &[mb[2], mb[0]]);
+                    let mut log = reg::take_clone_log();
+                    log.sort();
+                    let mut want = vec![(B::TAG, mb[0]), (B::TAG, mb[2])];
+                    want.sort();
+                    if log != want {
+                        sp.viol("clone-count", opsig, format!("lazy clones out of the destination made the Clone::clone calls {:?}, expected {:?}", log, want), &desc);
+                    }
+                    if ok3 { drop(e) } else { std::mem::forget(e) }
+                }
+                Err(m) => sp.viol("model", opsig, format!("lazy clones out of the destination panicked: {m}"), &desc),
+            }
+            // 3. independence: mutating the destination leaves the source alone; everything is destroyed exactly once
+            let r = guarded(|| {
+                let h = p.va.swap_remove(0);
+                drop(h);
+                p.va.clear();
+            });
+            if let Err(m) = r {
+                sp.viol("model", opsig, format!("emptying the destination panicked: {m}"), &desc);
+            }
+            match snap_ids::<B, _, _>(&p.vb) {
+                Ok(ids) if ids == mb => {}
+                other => sp.viol("shared-storage", opsig, format!("the source changed when the destination was emptied: {other:?}, expected {mb:?}"), &desc),
+            }
+            drop(p);
+            for (tag, tracked) in [(A::TAG, A::TRACKED), (B::TAG, B::TRACKED)] {
+                if tracked && reg::live_total(tag) != 0 {
+                    sp.viol("leak", opsig, format!("{} element instance(s) still alive after everything was dropped: {:?}", reg::live_total(tag), reg::live_snapshot(tag)), &desc);
+                }
+            }
+            sp.drain_reg(opsig, &desc);
+            sp.done(&desc, true, opsig);
+        }
+    }
+}
+
+#[cfg(feature = "alloc")]
+pub fn c08_clone_from(ctx: &mut Ctx) {
+    monalloc::set_mode(monalloc::MODE_OFF);
+    let l = if ctx.thorough() { 5 } else { 3 };
+    macro_rules! pairs {
+        ($($a:ty, $b:ty);*) => { $( c08_clone_from_pair::<$a, $b>(ctx, l); )* };
+    }
+    // same layout / different type, same type, different layouts, with and without drop glue, zero-sized
+    pairs!(W8d, W8d2; W8d2, W8d; W8d, W8d; W8d, W8; W8, W8d; S16d, S16d2; S16d2, S16d; S16d, Q16; Q16, S16d; B8, W8d; W8d, B8; B8, B8; S24d, S24d;
+           P3d, P3; U1d, U1; U1, U1d; Z0d, Z0; Z0, Z0d; Z0d, Z0d; W8d, S16d; S16d, W8d; L160d, U1d; U1d, L160d; A32d, W8d; Z0d, W8d; W8d, Z0d);
+}
+#[cfg(not(feature = "alloc"))]
+pub fn c08_clone_from(_ctx: &mut Ctx) {}
+
+// ---------------------------------------------------------------------------------------------
 // C12: views, alignment, placement
 
 #[repr(C, align(128))]
